@@ -279,7 +279,9 @@ func (m *Matcher) Lookup(hostPort, path string) Result {
 	bt := 0
 	if m.hasHost {
 		host := StripHost(hostPort)
-		if host != "" {
+		// a hostname (and so every label part a {param} stands for) contains no slash: such a Host equals no
+		// hostname pattern
+		if host != "" && !strings.Contains(host, "/") {
 			r, kv, b := m.direct(host, path, true)
 			bt += b
 			if r != nil {
@@ -312,7 +314,9 @@ func (m *Matcher) DirectOnly(hostPort, path string) Result {
 	bt := 0
 	if m.hasHost {
 		host := StripHost(hostPort)
-		if host != "" {
+		// a hostname (and so every label part a {param} stands for) contains no slash: such a Host equals no
+		// hostname pattern
+		if host != "" && !strings.Contains(host, "/") {
 			r, kv, b := m.direct(host, path, true)
 			bt += b
 			if r != nil {
